@@ -179,11 +179,13 @@ fn m_readsched(f: &[String]) -> String {
 		Ok(g) => {
 			writeln!(out, "OK").unwrap();
 			writeln!(out, "consumed={}/{}", r.consumed().min(total), total).unwrap();
+			writeln!(out, "err.sched_left={}", r.left()).unwrap();
 			dump_game(&mut out, &g);
 		}
 		Err(e) => {
 			writeln!(out, "{}", err_class(&e)).unwrap();
 			writeln!(out, "consumed={}/{}", r.consumed().min(total), total).unwrap();
+			writeln!(out, "err.sched_left={}", r.left()).unwrap();
 		}
 	}
 	out
